@@ -4,6 +4,7 @@ accumulator (`Model/CLFees.lean`) + uptime accumulators, tick trackers, incentiv
 full-range liquidity record.  `Props/C19.cl_export_import_eq` covers the pool component alone.
 
 Proved.
+ * `cl_full_export_import_never_panics`: on EVERY reachable state (C08's `runI` histories) `ExportGenesis` → `InitGenesis` succeeds.
  * `cl_full_export_import_eq_partial`: on every state with the store shape `FullWF` (what a KV store gives for free: ascending keys, the
    three per-tick lists aligned with the tick list, one spread-reward record per live position, live uptime records / join times in
    position order, incentive records in key order — a DECIDABLE predicate) `ExportGenesis` does not panic, `InitGenesis` succeeds, and the
@@ -20,7 +21,8 @@ Proved.
    (`cl_full_range_import_recomputes`, `cl_full_range_record_recomputed_witness`: 2·L₁ + L₂ before, L₁ + L₂ after); no message of the
    model reads it, and the difference stays constant along every later history (`cl_full_range_sim_step`, `cl_run_after_import_partial`).
 -/
-import OsmoVerif.Proofs.CLFullGenesis
+import OsmoVerif.Proofs.CLFullGenesisReach
+import OsmoVerif.Props.C08IncHist
 
 namespace OsmoVerif.Props.C19CL
 open OsmoVerif.CLInc OsmoVerif.CLFees OsmoVerif.CLPool
@@ -30,6 +32,15 @@ reachable by create / withdraw / add / transfer / swap / collect / incentive / a
 `FullWF` as a reachable-state invariant). -/
 theorem cl_full_export_import_eq_partial {s : Full} (h : FullWF s) : exportImportFull s = some (canon s) :=
   exportImportFull_eq h
+
+/-- **on EVERY reachable state the chain's own export is accepted**: for every history of create / withdraw / add / transfer / swap / collect /
+create-incentive / advance / sync / collect-incentives messages on a fresh pool (any tick spacing > 0, admissible spread factor, incentive
+scaling factor > 0) `ExportGenesis` finds a record for every live position in all seven accumulators, growth-outside values and uptime
+trackers for every initialised tick, a join time for every position — no panic — and `InitGenesis` accepts the document. -/
+theorem cl_full_export_import_never_panics {spacing spf scale factor : Int} {auth : Nat} (hs : 0 < spacing) (hspf : CLBook.SpfOK spf)
+    (hfac : 0 < factor) (ops : List CLIncP.IOp) :
+    (exportImportFull (CLIncP.runI (C08IncHist.initI spacing spf scale factor auth) ops)).isSome = true :=
+  exportImportFull_isSome (C08IncHist.reachable_inv_inc hs hspf hfac ops)
 
 /-- what `canon` keeps: the whole fee layer (pool, ticks, positions, spread-reward accumulator with all its records), the uptime
 accumulators' values and totals, every record of a live position, trackers, incentive records, clocks, balances -/
